@@ -39,6 +39,10 @@ class Raised:
         self.info = info  # Val (exception object) or None
 
 
+def cx_spec_mode(ex):
+    return False
+
+
 class Cx:
     "evaluation context"
 
@@ -315,6 +319,15 @@ class ExecBase:
         tsort = s.inner if isinstance(s, TOpt) else s
         if isinstance(v, VTuple) and isinstance(tsort, TTup) and len(v.items) == len(tsort.items):
             v = VTuple([self.narrow(st, i, so) for i, so in zip(v.items, tsort.items)], v.is_list)
+        # a reference stored into a field declared RefOf(C) must be null or an instance of C: every READ of the field assumes it (read_field),
+        # so an unchecked store of another class would make all later paths contradictory (vacuous proofs) -- found by a mutant that pushed
+        # a sequence object where a value was declared
+        if isinstance(v, VRef) and isinstance(tsort, TRefS) and getattr(tsort, "cls", None) and not cx_spec_mode(self):
+            want = tsort.cls
+            if not (v.cls is not None and self.repo.is_subclass(v.cls, want)):
+                exc0 = getattr(self, "typing_exceptions", {}) or {}
+                if name not in exc0:
+                    self.oblige(st, z3.Or(v.t == 0, self.isinstance_term(v, want)), "implicit", "well_typed_store[%s]" % name)
         try:
             t = term_of(v, s)
         except Unsupported:
